@@ -475,3 +475,166 @@ class Classifier:
         for w in todo:
             out[w] = "printer.other"
         return out
+
+
+# ------------------------------------------------------------------------------------------------------------------
+# lock-step product exploration (sequential programs and real cores)
+# ------------------------------------------------------------------------------------------------------------------
+class Mismatch:
+    def __init__(self, which, trace, S, V, phase):
+        self.which, self.trace, self.S, self.V, self.phase = which, trace, S, V, phase
+
+
+def explore(mk, alphabet, clock_choices, cap_transitions, seed=0, conform_target=400, walk=0, walk_menus=None,
+            max_mismatch=12):
+    """BFS over the product (S_A, S_B) from reset under every input valuation of `alphabet` and every clock choice,
+    to closure or `cap_transitions`; then (walk > 0) one long deterministic walk of `walk` cycles with corner values
+    chosen by a fixed LCG (not by `seed`).  Phi: after every settle and every edge all observed signals and memory
+    words agree.  Mismatching transitions are not extended.  Returns (stats dict, [Mismatch], A, B)."""
+    A = SideA(mk)
+    B = SideB(mk)
+    D, fsA, simB = A.D, A.fs, B.sim
+    st = dict(states=0, transitions=0, conformed=0, exhaustive=True, walk_cycles=0, depth=0)
+    mism = {}
+
+    def note(which, trace, oa, ob, phase):
+        for w in which:
+            key = w
+            if key not in mism and len(mism) < max_mismatch:
+                mism[key] = Mismatch(w, list(trace), oa, ob, phase)
+
+    def diff(oa, ob, ma, mb):
+        which = [k for k in range(len(oa)) if oa[k] != ob[k]]
+        if ma != mb:
+            for k, (x, y) in enumerate(zip(ma, mb)):
+                for a in range(len(x)):
+                    if x[a] != y[a]:
+                        which.append(("mem", k, a))
+        return which
+
+    fsA.v[:] = fsA.reset
+    fsA.settle()
+    simB.reset()
+    simB.settle()
+    oa, ob = A.observe(), B.observe()
+    w0 = diff(oa, ob, A.mem_words(), B.mem_words())
+    if w0:
+        note(w0, [], _obs_dict(oa, A.mem_words()), _obs_dict(ob, B.mem_words()), "time0")
+    s0 = (D.state(), simB.get_state())
+    seen = {s0: 0}
+    parent = {0: None}
+    frontier = [(s0, 0, 0)]
+    alphabet = list(alphabet)
+    if seed:
+        k = seed % len(alphabet)
+        alphabet = alphabet[k:] + alphabet[:k]
+    per_state = len(alphabet) * len(clock_choices)
+    conf_every = max(1, (cap_transitions // max(1, conform_target)))
+    multi = len(clock_choices) > 1
+
+    def path(sid):
+        out = []
+        while parent[sid] is not None:
+            sid, step = parent[sid]
+            out.append(step)
+        out.reverse()
+        return out
+    qi = 0
+    capped = False
+    while qi < len(frontier):
+        (sa, sb), sid, depth = frontier[qi]
+        qi += 1
+        if st["transitions"] + per_state > cap_transitions:
+            capped = True
+            break
+        st["depth"] = depth
+        for vals in alphabet:
+            D.load(sa)
+            A.drive(vals)
+            fsA.settle()
+            simB.set_state(sb)
+            B.drive(vals)
+            simB.settle()
+            oa, ob = A.observe(), B.observe()
+            if oa != ob:
+                note(diff(oa, ob, [], []), path(sid) + [(vals, None)], _obs_dict(oa, []), _obs_dict(ob, []), "settle")
+                st["transitions"] += len(clock_choices)
+                continue
+            vpre = list(fsA.v)
+            for ci, cds in enumerate(clock_choices):
+                if ci:
+                    fsA.v[:] = vpre
+                    simB.set_state(sb)
+                    B.drive(vals)
+                    simB.settle()
+                fsA.tick(cds)
+                B.tick(cds)
+                st["transitions"] += 1
+                if st["transitions"] % conf_every == 0:
+                    D.conform(sa, vpre, list(fsA.v), cds)
+                    st["conformed"] += 1
+                oa, ob = A.observe(), B.observe()
+                ma, mb = A.mem_words(), B.mem_words()
+                if oa != ob or ma != mb:
+                    note(diff(oa, ob, ma, mb), path(sid) + [(vals, cds)], _obs_dict(oa, ma), _obs_dict(ob, mb), "edge")
+                    continue
+                ns = (D.state(), simB.get_state())
+                if ns not in seen:
+                    nid = len(seen)
+                    seen[ns] = nid
+                    parent[nid] = (sid, (vals, cds))
+                    frontier.append((ns, nid, depth + 1))
+    st["states"] = len(seen)
+    st["exhaustive"] = not capped
+    st["frontier_left"] = len(frontier) - qi if capped else 0
+    # ---- long deterministic walk -----------------------------------------------------------------------------------
+    if walk and walk_menus:
+        lcg = 12345
+        fsA.v[:] = fsA.reset
+        fsA.settle()
+        simB.reset()
+        simB.settle()
+        trace = []
+        sa = D.state()
+        for cyc in range(walk):
+            vals = []
+            for menu in walk_menus:
+                lcg = (lcg * 1103515245 + 12345) & 0x7FFFFFFF
+                vals.append(menu[(lcg >> 8) % len(menu)])
+            vals = tuple(vals)
+            lcg = (lcg * 1103515245 + 12345) & 0x7FFFFFFF
+            cds = clock_choices[(lcg >> 8) % len(clock_choices)]
+            A.drive(vals)
+            fsA.settle()
+            B.drive(vals)
+            simB.settle()
+            oa, ob = A.observe(), B.observe()
+            if oa != ob:
+                note(diff(oa, ob, [], []), trace + [(vals, None)], _obs_dict(oa, []), _obs_dict(ob, []), "walk-settle")
+                break
+            vpre = list(fsA.v)
+            fsA.tick(cds)
+            B.tick(cds)
+            trace.append((vals, cds))
+            st["walk_cycles"] += 1
+            if cyc % max(1, walk // 40) == 0:
+                D.conform(sa, vpre, list(fsA.v), cds)
+                st["conformed"] += 1
+            sa = D.state()
+            oa, ob = A.observe(), B.observe()
+            ma, mb = A.mem_words(), B.mem_words()
+            if oa != ob or ma != mb:
+                note(diff(oa, ob, ma, mb), trace, _obs_dict(oa, ma), _obs_dict(ob, mb), "walk-edge")
+                break
+    return st, list(mism.values()), A, B
+
+
+class _obs_dict(dict):
+    """observation indexable both by observe-index and by ('mem', k, addr)"""
+    def __init__(self, obs, mems):
+        dict.__init__(self)
+        for k, x in enumerate(obs):
+            self[k] = x
+        for k, m in enumerate(mems):
+            for a, x in enumerate(m):
+                self[("mem", k, a)] = x
